@@ -316,7 +316,10 @@ class World {
   handler(ent) {
     const w = this, label = ent.label;
     const depth = label.split('.').length;
-    const derived = (prop) => {
+    const derived = (prop0) => {
+      // a property key that is the source text of a function / class (x[function(){}], x[class{}]) is source-text
+      // reflection: the minifier is entitled to change it, so all such keys are one key
+      const prop = /^(?:async\s|function\b|class\b|\(|[\w$]+\s*=>)/.test(prop0) && /[{(=]/.test(prop0) ? '$code' : prop0;
       const r = hkey(w.seed, 'prop', label + '\u0001' + prop);
       if (prop === 'length') return r % 4;
       const k = r % 20;
